@@ -11,7 +11,14 @@ Gates (only what C06 determines):
 * runs with max_results / threshold / pre_filter: VF2's enumeration order is not specified, so
   impl result must be duplicate-free, a subset of the unlimited result of the same strategy and
   have the model's length (= min(k, total), or 0 past the threshold);
-* inputs unmodified.
+* inputs unmodified;
+* call forms (stream `call-forms`): the same configuration handed over as `Strategy` enum member, in another letter case,
+  with arguments left to their documented defaults (strategy=COMPONENT, strict_cc_count=True, max_results=None,
+  threshold=None -> DEFAULT_THRESHOLD 5000, pre_filter=False), with integral float limits (SynReactor's
+  `embed_threshold: float`), graphs positional / by keyword, on the class / on an instance: same gates against the
+  model's answer for the canonical configuration; a failure confined to the call form is classed `call-form`;
+* default cap (stream `threshold-boundary`): match counts 4992..5040 around DEFAULT_THRESHOLD with the threshold left
+  at its default: everything up to 5000 matches, [] beyond.
 """
 import json
 
@@ -48,14 +55,62 @@ EDGE_KEYS = [["order"], ["order"], []]
 
 
 # ---------------------------------------------------------------- implementation adapter
+STRATEGY_MEMBER = {"all": "ALL", "comp": "COMPONENT", "bt": "BACKTRACK"}
+
+
+def model_cfg(cfg):
+    """The canonical configuration the model is asked about: a cfg may carry a "call" entry that only says HOW the
+    same configuration is handed to the implementation (enum member / other letter case / argument left out so that
+    the documented default applies / integral float limit / positional graphs / call on an instance)."""
+    if "call" not in cfg:
+        return cfg
+    return {k: v for k, v in cfg.items() if k != "call"}
+
+
+def call_args(cfg, host, pat, nk, ek):
+    """-> (use_instance, args, kwargs) of the find_subgraph_mappings call described by cfg (and cfg["call"])."""
+    call = cfg.get("call") or {}
+    omit = set(call.get("omit", ()))
+    flt = set(call.get("float", ()))
+    kw = {"node_attrs": list(nk), "edge_attrs": list(ek)}
+    form = call.get("strategy", "lower")
+    if form == "enum":
+        from synkit.Synthesis.Reactor.strategy import Strategy
+        kw["strategy"] = getattr(Strategy, STRATEGY_MEMBER[cfg["strategy"]])
+    elif form == "upper":
+        kw["strategy"] = cfg["strategy"].upper()
+    elif form == "title":
+        kw["strategy"] = cfg["strategy"].title()
+    elif form != "omit":
+        kw["strategy"] = cfg["strategy"]
+    for key, arg in (("max_results", "max_results"), ("strict", "strict_cc_count"), ("threshold", "threshold"),
+                     ("pre_filter", "pre_filter")):
+        if key in omit:
+            continue
+        v = cfg[key]
+        if key in flt and v is not None:
+            v = float(v)
+        kw[arg] = v
+    if call.get("positional"):
+        args = (host, pat)
+    else:
+        args = ()
+        kw["host"], kw["pattern"] = host, pat
+    return bool(call.get("instance")), args, kw
+
+
 def impl_search(host, pat, nk, ek, cfg):
     from synkit.Graph.Matcher.subgraph_matcher import SubgraphSearchEngine as S
 
     h0, p0 = host.copy(), pat.copy()
     try:
-        res = S.find_subgraph_mappings(host, pat, node_attrs=list(nk), edge_attrs=list(ek), strategy=cfg["strategy"],
-                                       max_results=cfg["max_results"], strict_cc_count=cfg["strict"],
-                                       threshold=cfg["threshold"], pre_filter=cfg["pre_filter"])
+        if "call" in cfg:
+            inst, args, kw = call_args(cfg, host, pat, nk, ek)
+            res = (S() if inst else S).find_subgraph_mappings(*args, **kw)
+        else:
+            res = S.find_subgraph_mappings(host, pat, node_attrs=list(nk), edge_attrs=list(ek), strategy=cfg["strategy"],
+                                           max_results=cfg["max_results"], strict_cc_count=cfg["strict"],
+                                           threshold=cfg["threshold"], pre_filter=cfg["pre_filter"])
     except Exception as e:  # no error branch is modelled for well-formed inputs
         return {"error": type(e).__name__ + ": " + str(e)[:200]}
     lst = [graphio.mapping(m) for m in res]
@@ -91,7 +146,7 @@ def judge(cfg, impl, mod, total):
 
 def request(host, pat, nk, ek, cfgs):
     return {"cmd": "c06.search", "host": graphio.graph(host), "pattern": graphio.graph(pat),
-            "node_keys": list(nk), "edge_keys": list(ek), "cfgs": cfgs}
+            "node_keys": list(nk), "edge_keys": list(ek), "cfgs": [model_cfg(c) for c in cfgs]}
 
 
 def case_json(host, pat, nk, ek, cfg):
@@ -119,12 +174,20 @@ def limited_cfgs(rnd, total, k=4):
 
 
 # ---------------------------------------------------------------- evaluation
-def evaluate(ctx, cases, tag):
+def lean_each(ctx, reqs, workers=8):
+    """A few expensive requests: one driver process per request, side by side."""
+    from concurrent.futures import ThreadPoolExecutor
+
+    with ThreadPoolExecutor(max(1, min(workers, len(reqs)))) as ex:
+        return [r[0] for r in ex.map(lambda q: ctx.lean().ok([q]), reqs)]
+
+
+def evaluate(ctx, cases, tag, each=False):
     """cases: list of (host, pattern, node_keys, edge_keys, cfgs, shape-tag)."""
     if not cases:
         return
     reqs = [request(h, p, nk, ek, cfgs) for h, p, nk, ek, cfgs, _ in cases]
-    models = ctx.lean().ok(reqs, shards=8)
+    models = lean_each(ctx, reqs) if each else ctx.lean().ok(reqs, shards=8)
     for (host, pat, nk, ek, cfgs, shape), mod in zip(cases, models):
         total, hcc, pcc = mod["total"], mod["hcc"], mod["pcc"]
         ctx.count("stream:" + tag)
@@ -143,6 +206,7 @@ def evaluate(ctx, cases, tag):
                  if host.number_of_nodes() <= 3 else None)
         for cfg, m in zip(cfgs, mod["runs"]):
             ctx.count("strategy:" + cfg["strategy"] + ("" if is_unlimited(cfg) else "+limits"))
+            count_call(ctx, cfg)
             if cfg["strategy"] != "all" and cfg["strict"] and hcc > pcc:
                 ctx.count("strict_guard_fired")
             if cfg["pre_filter"] and m["prefilter"]:
@@ -155,17 +219,39 @@ def evaluate(ctx, cases, tag):
             why = judge(cfg, impl, m, total)
             if why is None:
                 continue
-            report(ctx, host, pat, nk, ek, cfg, why, tag)
-            if len(ctx.violations) >= 5:
+            if "call" in cfg and judge(cfg, impl_search(host, pat, nk, ek, model_cfg(cfg)), m, total) is None:
+                # the explicit lower-case all-arguments call of the same configuration meets the specification: what
+                # broke is the documented way of selecting the strategy / relying on a documented default
+                report(ctx, host, pat, nk, ek, cfg, why, tag, classes=["call-form"],
+                       what="find_subgraph_mappings answers a documented call form (strategy given as enum member / other letter "
+                            "case, argument left to its documented default, integral float limit, positional graphs) differently "
+                            "from the explicit call of the same configuration, and departs from the specification")
+            else:
+                report(ctx, host, pat, nk, ek, cfg, why, tag)
+            if len(ctx.violations) >= 5 or each:  # `each`: cases of thousands of mappings, one report is enough
                 return
 
 
-def report(ctx, host, pat, nk, ek, cfg, why, tag):
+def count_call(ctx, cfg):
+    call = cfg.get("call")
+    if call is None:
+        return
+    ctx.count("call:strategy-as-" + call.get("strategy", "lower"))
+    for k in call.get("omit", ()):
+        ctx.count("call:default-" + k)
+    for k in call.get("float", ()):
+        if cfg[k] is not None:
+            ctx.count("call:float-" + k)
+    ctx.count("call:graphs-" + ("positional" if call.get("positional") else "keyword"))
+    ctx.count("call:on-" + ("instance" if call.get("instance") else "class"))
+
+
+def report(ctx, host, pat, nk, ek, cfg, why, tag, classes=(), what=None):
     def fails(h, p):
         mod = ctx.lean().ok([request(h, p, nk, ek, [cfg])])[0]
         return judge(cfg, impl_search(h, p, nk, ek, cfg), mod["runs"][0], mod["total"]) is not None
 
-    h2, p2 = matchgen.shrink_pair(host, pat, fails)
+    h2, p2 = matchgen.shrink_pair(host, pat, fails, budget=300 if host.number_of_nodes() <= 12 else 8)
     mod = ctx.lean().ok([request(h2, p2, nk, ek, [cfg])])[0]
     impl = impl_search(h2, p2, nk, ek, cfg)
     why2 = judge(cfg, impl, mod["runs"][0], mod["total"]) or why
@@ -173,11 +259,25 @@ def report(ctx, host, pat, nk, ek, cfg, why, tag):
     if "maps" in impl:
         spec = ctx.lean().ok([{"cmd": "c06.spec", "host": graphio.graph(h2), "pattern": graphio.graph(p2),
                                "node_keys": list(nk), "edge_keys": list(ek), "maps": impl["maps"]}])[0]
-    ctx.violation("find_subgraph_mappings departs from the specification of the selected strategy",
+    ctx.violation(what or "find_subgraph_mappings departs from the specification of the selected strategy",
                   case_json(h2, p2, nk, ek, cfg),
-                  {"clause": why2, "stream": tag, "implementation": impl, "specification": mod["runs"][0],
+                  {"clause": why2, "stream": tag, "implementation": trim(impl), "specification": trim(mod["runs"][0]),
                    "monomorphisms_total": mod["total"], "host_components": mod["hcc"], "pattern_components": mod["pcc"],
-                   "spec_on_impl_output[isMono,distinctComponents]": spec})
+                   "spec_on_impl_output[isMono,distinctComponents]": spec if spec is None or len(spec) <= 200 else
+                   {"n": len(spec), "isMono_everywhere": all(a for a, _ in spec), "distinctComponents_everywhere": all(b for _, b in spec)}},
+                  classes=classes)
+
+
+def trim(d, keep=40):
+    """Mapping lists of thousands of entries (threshold-boundary stream) are cut in the written detail."""
+    out = {}
+    for k, v in d.items():
+        if isinstance(v, list) and len(v) > keep:
+            out[k] = v[:keep]
+            out[k + "_cut_from"] = len(v)
+        else:
+            out[k] = v
+    return out
 
 
 # ---------------------------------------------------------------- generators
@@ -255,12 +355,151 @@ def gen_selection_history(ctx, count):
     return out
 
 
-def with_cfgs(ctx, pairs, limited=3):
+def call_form_cfgs(rnd, total, k=3):
+    """Configurations handed over in the other documented ways (signature of find_subgraph_mappings: `strategy:
+    Union[str, Strategy] = Strategy.COMPONENT`, `max_results=None`, `strict_cc_count=True`, `threshold=None`,
+    `pre_filter=False`; `Strategy.from_string` lower-cases strings; SynReactor passes `embed_threshold: float`)."""
+    out = []
+    for _ in range(k):
+        strat = rnd.choice(["all", "comp", "comp", "bt"])
+        forms = ["enum", "enum", "upper", "title", "lower"] + (["omit", "omit", "omit"] if strat == "comp" else [])
+        call = {"strategy": rnd.choice(forms), "omit": [], "float": [],
+                "positional": rnd.random() < 0.5, "instance": rnd.random() < 0.3}
+        cfg = {"strategy": strat, "max_results": None, "strict": True, "threshold": None, "pre_filter": False}
+        # every argument: left out (documented default) or given; limits possibly as integral floats
+        if rnd.random() < 0.5:
+            call["omit"].append("strict")
+        else:
+            cfg["strict"] = rnd.random() < 0.5
+        if rnd.random() < 0.5:
+            call["omit"].append("max_results")
+        else:
+            cfg["max_results"] = rnd.choice([None, 0, 1, 2, 5, max(1, total - 1), total + 1])
+            if rnd.random() < 0.5:
+                call["float"].append("max_results")
+        if rnd.random() < 0.6:
+            call["omit"].append("threshold")
+        else:
+            cfg["threshold"] = rnd.choice([None, 0, 1, 2, max(0, total - 1), total, total + 1])
+            if rnd.random() < 0.6:
+                call["float"].append("threshold")
+        if rnd.random() < 0.7:
+            call["omit"].append("pre_filter")
+        else:
+            cfg["pre_filter"] = rnd.random() < 0.5
+        cfg["call"] = call
+        out.append(cfg)
+    return out
+
+
+def drop_optional_attributes(rnd, g):
+    """Optional attributes missing on some atoms / bonds (`d.get(k)` is then None on that side)."""
+    g = g.copy()
+    for v in g.nodes:
+        if rnd.random() < 0.15:
+            g.nodes[v].pop("charge", None)
+        if rnd.random() < 0.05:
+            g.nodes[v].pop("element", None)
+    for u, v in g.edges:
+        if rnd.random() < 0.2:
+            g[u][v].pop("order", None)
+    return g
+
+
+def gen_call_forms(ctx, count):
+    """Random pairs as in the `random` stream; on a third of them optional attributes are missing on some atoms /
+    bonds of either graph, and `hcount` may be among the selected (equality) attributes."""
+    rnd = ctx.rnd
+    out = []
+    for h, p, nk, ek, shape in gen_random(ctx, count):
+        if rnd.random() < 0.35:
+            h, p = drop_optional_attributes(rnd, h), drop_optional_attributes(rnd, p)
+            shape = "attrs-missing/" + shape.split("/")[0]
+        if rnd.random() < 0.15:
+            nk = ["element", "hcount"]
+        out.append((h, p, nk, ek, shape))
+    return out
+
+
+# totals next to DEFAULT_THRESHOLD = 5000 as products of group sizes: the host holds, per group, `f` isolated atoms of
+# one element (pattern: one such atom; f images) or f/2 disjoint bonds between two atoms of one element (pattern: one
+# such bond; f images); groups use different elements, so the number of monomorphisms is the product
+BOUNDARY_TOTALS = {4992: [(6, 8, 8, 13), (4, 6, 8, 26)], 4998: [(6, 7, 7, 17), (2, 3, 7, 7, 17)],
+                   5000: [(5, 5, 5, 5, 8), (4, 5, 5, 5, 10), (2, 4, 5, 5, 5, 5)],
+                   5005: [(5, 7, 11, 13)], 5016: [(3, 8, 11, 19), (2, 4, 3, 11, 19)], 5040: [(7, 8, 9, 10), (2, 4, 7, 9, 10)]}
+BOUNDARY_ELEMS = ["C", "N", "O", "S", "P", "F", "Cl", "Br"]
+
+
+def boundary_pair(rnd, total):
+    factors = list(rnd.choice(BOUNDARY_TOTALS[total]))
+    rnd.shuffle(factors)
+    elems = rnd.sample(BOUNDARY_ELEMS, len(factors))
+    hparts, pparts = [], []
+    hid, pid = 0, 200
+    for f, el in zip(factors, elems):
+        bond = f % 2 == 0 and rnd.random() < 0.5
+        order = float(rnd.choice([1, 2]))
+        hg, pg = nx.Graph(), nx.Graph()
+        for _ in range(f // 2 if bond else f):
+            hg.add_node(hid, element=el, charge=0, hcount=rnd.choice([1, 2]))
+            if bond:
+                hg.add_node(hid + 1, element=el, charge=0, hcount=rnd.choice([1, 2]))
+                hg.add_edge(hid, hid + 1, order=order)
+            hid += 2 if bond else 1
+        pa = {"element": el, "charge": 0}
+        if rnd.random() < 0.5:
+            pa["hcount"] = rnd.choice([0, 1])
+        pg.add_node(pid, **pa)
+        if bond:
+            pg.add_node(pid + 1, **pa)
+            pg.add_edge(pid, pid + 1, order=order)
+        pid += 2 if bond else 1
+        hparts.append(hg)
+        pparts.append(pg)
+    assert_total = 1
+    for f in factors:
+        assert_total *= f
+    assert assert_total == total
+    return matchgen.union(rnd, hparts), matchgen.union(rnd, pparts)
+
+
+def gen_threshold_boundary(ctx, count):
+    """Hosts/patterns whose number of monomorphisms lies just below, at, and just above the documented default cap
+    (`DEFAULT_THRESHOLD` = 5000), searched with `threshold` left at None / left out."""
+    rnd = ctx.rnd
+    totals = [5000, rnd.choice([5005, 5016, 5040]), rnd.choice([4992, 4998])]
+    while len(totals) < count:
+        totals.append(rnd.choice(sorted(BOUNDARY_TOTALS)))
+    cases = []
+    for total in totals[:count]:
+        h, p = boundary_pair(rnd, total)
+        nk, ek = rnd.choice([["element"], ["element", "charge"]]), rnd.choice([["order"], []])
+        cfgs = []
+        for strat, strict in rnd.sample([("all", True), ("comp", False), ("bt", False), ("bt", True)], 3):
+            cfg = {"strategy": strat, "max_results": None, "strict": strict, "threshold": None, "pre_filter": False}
+            r = rnd.random()
+            if r < 0.4:  # threshold (and whatever else has the wanted default) left out
+                omit = ["threshold", "max_results", "pre_filter"] + (["strict"] if strict else [])
+                cfg["call"] = {"strategy": rnd.choice(["enum", "lower"]), "omit": omit, "float": [],
+                               "positional": rnd.random() < 0.5, "instance": False}
+            elif r < 0.55:  # the cap given explicitly
+                cfg["threshold"] = 5000
+            elif r < 0.7:  # a limit close to the cap, default threshold
+                cfg["max_results"] = rnd.choice([4999, 5000, 5001])
+            cfgs.append(cfg)
+        cases.append((h, p, nk, ek, cfgs, f"boundary/{'below' if total < 5000 else 'at' if total == 5000 else 'above'}"))
+    return cases
+
+
+def with_cfgs(ctx, pairs, limited=3, forms=0):
     """Two passes: the base (unlimited) configurations, plus limited ones drawn knowing the match count."""
     cases = []
     pre = ctx.lean().ok([request(h, p, nk, ek, []) for h, p, nk, ek, _ in pairs], shards=8)
     for (h, p, nk, ek, shape), info in zip(pairs, pre):
-        cfgs = base_cfgs() + limited_cfgs(ctx.rnd, info["total"], limited)
+        if forms:
+            cfgs = call_form_cfgs(ctx.rnd, info["total"], forms)
+        else:
+            cfgs = base_cfgs() + limited_cfgs(ctx.rnd, info["total"], limited)
         cases.append((h, p, nk, ek, cfgs, shape))
     return cases
 
@@ -291,12 +530,28 @@ def run(ctx):
         "'exactly those' for the component-aware strategy is read for strict_cc_count=False; the default True is the documented guard "
         "(host with more components than the pattern => []), modelled as such (DESIGN 5a)",
         "pre_filter=True is a documented blow-up guard (candidate product > threshold*1e4 => []), modelled as coded",
+        "documented defaults are taken from the signature/docstring of find_subgraph_mappings: strategy=Strategy.COMPONENT, "
+        "max_results=None, strict_cc_count=True, threshold=None (= DEFAULT_THRESHOLD = 5000, class docstring), pre_filter=False; "
+        "Strategy.from_string accepts enum members and strings in any letter case (as coded: value.lower()); an integral float "
+        "limit (2.0) means the integer limit (2)",
+        "not driven, outside C06: strategy='partial' (NotImplementedError), unknown strategy strings (ValueError), "
+        "Strategy.__str__/__repr__, SubgraphSearchEngine.__repr__/help; the two `return`s at the head of the nested "
+        "`backtrack` are unreachable for max_results >= 0 and any threshold (results only grows at a leaf, and every "
+        "caller re-tests the same stop condition right after the call returns)",
     ]
     ctx.gen_rule = ("regression corpus first; tiny-exhaustive: every host class (<=3 nodes quick / <=4 thorough; 2 elements x hcount{0,1} x "
                     "orders{1,2}) x every pattern class (<=2 / <=3 nodes), all three strategies x strict on/off, unlimited; random: molecule-like "
                     "hosts <=9 nodes (trees + ring closures), planted / edited / unrelated patterns, 1-3 components on both sides, symmetric "
                     "families; each with the 5 unlimited configurations plus limited ones (max_results in {None,0,1,2,5,total-1,total+1}, "
-                    "threshold in {None,0,1,2,total-1,total,total+1}, pre_filter on/off).")
+                    "threshold in {None,0,1,2,total-1,total,total+1}, pre_filter on/off). "
+                    "call-forms (150 quick / 2000 thorough pairs of the random population, 35% with charge/element/order missing on "
+                    "some atoms/bonds, 15% with hcount among the selected attributes; 3 configurations each): strategy as enum member / "
+                    "UPPER / Title / lower / left out (comp), each of strict_cc_count, max_results, threshold, pre_filter left out "
+                    "(p = .5/.5/.6/.7) or given, limits as int or integral float, host/pattern positional or keyword, class or instance "
+                    "call. threshold-boundary (4 quick / 12 thorough): group-product hosts of 28-60 atoms (isolated atoms / disjoint "
+                    "bonds, one element per group) with exactly 4992, 4998, 5000, 5005, 5016 or 5040 monomorphisms (always one at 5000, "
+                    "one above, one below), 3 of {all, comp, bt, bt-strict} each, threshold at default (40% of them with the defaulted "
+                    "arguments left out), explicit 5000, or max_results in {4999,5000,5001}.")
     ctx.nontrivial_rule = "(host, pattern, keys) distinct as JSON, host has >=2 nodes and at least one monomorphism exists"
     build_and_audit(ctx, ["SynKitProofs.Props.C06"], "SynKitProofs/Audit/C06.lean", THEOREMS)
 
@@ -326,6 +581,10 @@ def run(ctx):
         evaluate(ctx, with_cfgs(ctx, gen_random(ctx, nrand)), "random")
     if not ctx.violations:
         evaluate(ctx, with_cfgs(ctx, gen_selection_history(ctx, 60 if ctx.quick else 600), limited=1), "selection-history")
+    if not ctx.violations:
+        evaluate(ctx, with_cfgs(ctx, gen_call_forms(ctx, 150 if ctx.quick else 2000), forms=3), "call-forms")
+    if not ctx.violations:
+        evaluate(ctx, gen_threshold_boundary(ctx, 4 if ctx.quick else 12), "threshold-boundary", each=True)
     ctx.obligation("correspondence: find_subgraph_mappings impl == model (mapping sets; limited runs: subset + length; inputs unmodified)",
                    not ctx.violations)
 
